@@ -184,7 +184,7 @@ theorem main_pop_md {cs : List Chunk} {v : Variant} {c : Cfg} {x : Item} {rest :
     exact m.names (by rw [hnc]; exact hn)
   · exact hopen
   · intro hv; exact (hp ▸ m.sj hv).tail
-  · intro hv; have := m.noApp hv; rw [hp] at this; exact pendApp_tail_nil this
+  · intro hv; have := m.noApp hv; rw [hp] at this; exact ⟨pendApp_tail_nil this.1, fun hm => this.2 (by simp [hm])⟩
   · intro hv; have := m.noRead hv; rw [hp] at this; exact readIdx_tail_nil this
   · exact m.nocmeta
   · exact (hp ▸ m.unl).tail
@@ -226,7 +226,7 @@ theorem inv_late_pop {cs : List Chunk} {v : Variant} {c : Cfg} {x : Item} {rest 
   have hge : rank x ≤ hr rest := hs.hr_rest_ge
   refine inv_late hs.tail (by simp only; omega) h.wtemp (quiet_pop (c := c) h hp hnq) (closed_pop (c := c) h hp hnm)
     (synced_pop (c := c) h hp hnf) h.safe h.handTerm ?_ (tempSome_pop (c := c) h hp hx16) (termLate_pop (c := c) h hp hnm)
-    (fun h25 => absurd h25 (renamed_pop (c := c) h hp hx24 hnr)) (h.side.congr rfl rfl rfl rfl)
+    (fun h25 => absurd h25 (renamed_pop (c := c) h hp hx24 hnr)) (h.side.congr rfl rfl rfl rfl rfl)
   intro hh _ h25
   exact hmain hh h25
 
@@ -267,7 +267,7 @@ theorem inv_append {cs : List Chunk} {v : Variant} {c : Cfg} {ci : ChunkInfo} {r
     simpa [rank] using this
   refine inv_late hs.tail (by simp only; omega) h.wtemp ?_ ?_ ?_ h.safe h.handTerm ?_
     (tempSome_pop (c := c) h hp (by simp [rank])) (by intro h19 _; simp only at h19; omega)
-    (by intro h25; simp only at h25; omega) (h.side.congr rfl rfl rfl rfl)
+    (by intro h25; simp only at h25; omega) (h.side.congr rfl rfl rfl rfl rfl)
   · intro h18 _; simp only at h18; omega
   · intro h19 _; simp only at h19; omega
   · intro h23 _; simp only at h23; omega
@@ -275,7 +275,7 @@ theorem inv_append {cs : List Chunk} {v : Variant} {c : Cfg} {ci : ChunkInfo} {r
     have m := main_of_inv h hp (by simp [rank]) hh
     have hv : v ≠ .forked := by
       intro hv
-      have := m.noApp hv
+      have := (m.noApp hv).1
       rw [hp] at this; simp [pendApp] at this
     refine main_pop_md m hp hs.hr_rest_ge (by simp) (by simp) _ ?_ ?_ (by simp) (by simp)
     · have := m.chunksMd
@@ -299,7 +299,7 @@ theorem inv_markClosed {cs : List Chunk} {v : Variant} {c : Cfg} {rest : List It
     have := hs.no_cross mem_milestones_fwLast (by simp [rank]) (by simp)
     simpa [rank] using this
   refine inv_late hs.tail (by simp only; omega) h.wtemp (quiet_pop (c := c) h hp (by simp)) ?_ ?_ h.safe ?_ ?_
-    (tempSome_pop (c := c) h hp (by simp [rank])) (by intro _ _; rfl) (by intro h25; simp only at h25; omega) (h.side.congr rfl rfl rfl rfl)
+    (tempSome_pop (c := c) h hp (by simp [rank])) (by intro _ _; rfl) (by intro h25; simp only at h25; omega) (h.side.congr rfl rfl rfl rfl rfl)
   · intro _ _; exact ⟨rfl, rfl⟩
   · intro h23 _; simp only at h23; omega
   · intro _; rfl
@@ -324,7 +324,7 @@ theorem inv_waitQuiet {cs : List Chunk} {v : Variant} {c : Cfg} {rest : List Ite
     simpa [rank] using this
   refine inv_late hs.tail (by simp only; omega) h.wtemp ?_ ?_ ?_ h.safe h.handTerm ?_
     (tempSome_pop (c := c) h hp (by simp [rank])) (by intro h19 _; simp only at h19; omega)
-    (by intro h25; simp only at h25; omega) (h.side.congr rfl rfl rfl rfl)
+    (by intro h25; simp only at h25; omega) (h.side.congr rfl rfl rfl rfl rfl)
   · intro _ _; exact anyRunning_false hq
   · intro h19 _; simp only at h19; omega
   · intro h23 _; simp only at h23; omega
@@ -338,7 +338,7 @@ theorem inv_finish {cs : List Chunk} {v : Variant} {c : Cfg} {rest : List Item} 
   have hs : Shape (.finish :: rest) := hp ▸ h.shape
   have hgt : 25 < hr rest := by have := hs.hr_rest_gt (by simp [rank]) (by simp [rank]); simpa [rank] using this
   refine inv_late hs.tail (by simp only; omega) h.wtemp ?_ ?_ ?_ h.safe h.handTerm ?_
-    (by intro h24; simp only at h24; omega) (by intro _ h25; simp only at h25; omega) (by intro h25; simp only at h25; omega) (h.side.congr rfl rfl rfl rfl)
+    (by intro h24; simp only at h24; omega) (by intro _ h25; simp only at h25; omega) (by intro h25; simp only at h25; omega) (h.side.congr rfl rfl rfl rfl rfl)
   · intro _ h25; simp only at h25; omega
   · intro _ h25; simp only at h25; omega
   · intro _ h24; simp only at h24; omega
@@ -372,10 +372,9 @@ theorem inv_submit {cs : List Chunk} {v : Variant} {c : Cfg} {i : Nat} {ops : Li
   have hle : hr rest ≤ 17 := by
     have := hs.no_cross mem_milestones_waitQuiet (by simp [rank]) (by simp)
     simpa [rank] using this
-  have hok2 : (∀ o ∈ ops, tempOp o = true) ∧ ∀ o ∈ ops, mdFree o = true := by
+  have hok : ∀ o ∈ ops, tempOp o = true := by
     have := h.shape.ok (.submit i ops) (by rw [hp]; simp)
     simpa [okItem] using this
-  obtain ⟨hok, hokmd⟩ := hok2
   refine inv_late hs.tail (by simp only; omega) ?_ ?_ ?_ ?_ h.safe h.handTerm ?_
     (tempSome_pop (c := c) h hp (by simp [rank])) (by intro h19 _; simp only at h19; omega)
     (by intro h25; simp only at h25; omega) ?_
@@ -449,7 +448,7 @@ theorem inv_submit {cs : List Chunk} {v : Variant} {c : Cfg} {i : Nat} {ops : Li
       exact ⟨w, by simp [hw], hwi⟩
     · intro h18; exact m.mdOpen (by rw [hp]; simp [rank])
     · intro hv; exact (hp ▸ m.sj hv).tail
-    · intro hv; have := m.noApp hv; rw [hp] at this; exact pendApp_tail_nil this
+    · intro hv; have := m.noApp hv; rw [hp] at this; exact ⟨pendApp_tail_nil this.1, fun hm => this.2 (by simp [hm])⟩
     · intro hv; have := m.noRead hv; rw [hp] at this; exact readIdx_tail_nil this
     · exact m.nocmeta
     · exact (hp ▸ m.unl).tail
@@ -463,11 +462,20 @@ theorem inv_submit {cs : List Chunk} {v : Variant} {c : Cfg} {i : Nat} {ops : Li
         · right; exact ⟨i', by rw [hp]; simp [hi']⟩
       obtain ⟨h20, _⟩ := m.lateItems hl'
       rw [hp] at h20; simp [rank] at h20
-  · refine ⟨h.side.nf, ?_, h.side.orphOk, h.side.orphMode⟩
-    intro w hw o ho
+  · refine ⟨?_, h.side.nmu, h.side.orphOk, h.side.orphMode⟩
+    intro hv hh w hw o ho
     rcases List.mem_append.mp hw with hw | hw
-    · exact h.side.wmd w hw o ho
-    · simp at hw; subst hw; exact hokmd o ho
+    · exact h.side.wmd hv hh w hw o ho
+    · simp at hw; subst hw
+      have ho' : o ∈ ops := ho
+      have m := main_of_inv h hp (by simp [rank]) hh
+      obtain ⟨hi, hops⟩ := m.substd i ops (by rw [hp]; simp)
+      have hwo : ops = writeOps i cs[i].rows := by
+        rw [hops]; cases v with
+        | forked => exact absurd rfl hv
+        | serial => rfl
+        | executor => rfl
+      rw [hwo] at ho'; exact mdFree_writeOps _ _ o ho'
 
 
 /-! ## items that touch the file system -/
@@ -576,7 +584,7 @@ theorem inv_flush {cs : List Chunk} {v : Variant} {c : Cfg} {x : Item} {rest : L
       ?_ ?_ h.handTerm ?_ (by intro _; simp [ht']) (termLate_pop (c := c) h hp hnm)
       (fun h25 => absurd h25 (renamed_pop (c := c) h hp
         (by rcases hxo with ⟨p, rfl, _⟩ | ⟨p, rfl, _⟩ | ⟨p, rfl, _⟩ <;> cases p <;> simp [rank])
-        (by rcases hxo with ⟨_, rfl, _⟩ | ⟨_, rfl, _⟩ | ⟨_, rfl, _⟩ <;> simp))) (h.side.congr rfl rfl rfl rfl)
+        (by rcases hxo with ⟨_, rfl, _⟩ | ⟨_, rfl, _⟩ | ⟨_, rfl, _⟩ <;> simp))) (h.side.congr rfl rfl rfl rfl rfl)
     · -- the metadata file equals the metadata in memory from the final write on
       intro h23 h24
       simp only at h23 h24
@@ -775,7 +783,7 @@ theorem inv_rename {cs : List Chunk} {v : Variant} {c : Cfg} {rest : List Item} 
     obtain ⟨hend, hexc⟩ := h.closedMd (by omega) (by omega)
     refine inv_late hs.tail (by simp only; omega) h.wtemp ?_ ?_ ?_ ?_ h.handTerm ?_
       (by intro h24; simp only at h24; omega) (by intro _ _; exact h.termLate (by omega) (by omega))
-      (by intro _; exact ⟨t, hfin, hmd⟩) (h.side.congr rfl rfl rfl rfl)
+      (by intro _; exact ⟨t, hfin, hmd⟩) (h.side.congr rfl rfl rfl rfl rfl)
     · intro _ h25; exact h.quiet (by omega) (by omega)
     · intro _ _; exact ⟨hend, hexc⟩
     · intro _ h24; simp only at h24; omega
@@ -826,7 +834,7 @@ theorem inv_unlink {cs : List Chunk} {v : Variant} {c : Cfg} {i : Nat} {rest : L
     obtain ⟨hfin, t, ht, ht'⟩ := apply_unlinkTemp ha
     refine inv_late hs.tail (by simp only; omega) h.wtemp ?_ ?_ ?_ ?_ h.handTerm ?_
       (by intro _; simp [ht']) (by intro _ _; exact h.termLate (by omega) (by omega))
-      (by intro h25; simp only at h25; omega) (h.side.congr rfl rfl rfl rfl)
+      (by intro h25; simp only at h25; omega) (h.side.congr rfl rfl rfl rfl rfl)
     · intro _ _; exact h.quiet (by omega) (by omega)
     · intro _ _; exact h.closedMd (by omega) (by omega)
     · intro h23 _; simp only at h23; omega
@@ -1086,7 +1094,7 @@ theorem inv_readInfo {cs : List Chunk} {v : Variant} {c : Cfg} {i : Nat} {rest :
     simpa [rank] using this
   refine inv_late hs.tail (by simp only; omega) h.wtemp ?_ ?_ ?_ h.safe h.handTerm ?_
     (tempSome_pop (c := c) h hp (by simp [rank])) (by intro _ _; exact h.termLate (by omega) (by omega))
-    (by intro h25; simp only at h25; omega) (h.side.congr rfl rfl rfl rfl)
+    (by intro h25; simp only at h25; omega) (h.side.congr rfl rfl rfl rfl rfl)
   · intro _ _; exact h.quiet (by omega) (by omega)
   · intro _ _; exact h.closedMd (by omega) (by omega)
   · intro h23 _; simp only at h23; omega
@@ -1207,7 +1215,7 @@ theorem inv_collect {cs : List Chunk} {v : Variant} {c : Cfg} {rest : List Item}
   have hle : hr (collectItems (collectList t) ++ rest) ≤ 22 := by
     have := hs'.sorted.hr_le_mem (.flushWrite .last) (by simp [hfw])
     simpa [rank] using this
-  refine inv_late hs' (by simp only; omega) h.wtemp ?_ ?_ ?_ h.safe h.handTerm ?_ ?_ ?_ (by intro h25; simp only at h25; omega) (h.side.congr rfl rfl rfl rfl)
+  refine inv_late hs' (by simp only; omega) h.wtemp ?_ ?_ ?_ h.safe h.handTerm ?_ ?_ ?_ (by intro h25; simp only at h25; omega) (h.side.congr rfl rfl rfl rfl rfl)
   · intro _ _; exact h.quiet (by omega) (by omega)
   · intro _ _; exact h.closedMd (by omega) (by omega)
   · intro h23 _; simp only at h23; omega
@@ -1308,7 +1316,11 @@ theorem inv_collect {cs : List Chunk} {v : Variant} {c : Cfg} {rest : List Item}
     · intro hv
       have := m.noApp hv
       rw [hp] at this
-      simpa [pendApp_collectItems, pendApp] using this
+      refine ⟨by simpa [pendApp_collectItems, pendApp] using this.1, ?_⟩
+      intro hm
+      rcases List.mem_append.mp hm with hm | hm
+      · have := (rank_collectItems _ _ hm).1; simp [rank] at this
+      · exact this.2 (by simp [hm])
     · intro hv
       simp only [readIdx_collectItems, hrr, List.append_nil]
       exact hl0 hv
@@ -1728,11 +1740,11 @@ theorem inv_wrk_ok {cs : List Chunk} {v : Variant} {c : Cfg} {k : Nat} {w : Work
         apply hag
         intro hx
         rcases hnames.2 hv _ hx with h | h <;> cases h
-  · refine ⟨h.side.nf, ?_, h.side.orphOk, h.side.orphMode⟩
-    intro a ham o' ho'
+  · refine ⟨?_, h.side.nmu, h.side.orphOk, h.side.orphMode⟩
+    intro hv hh a ham o' ho'
     rcases mem_set_cases ham with rfl | ⟨p, _, hp⟩
-    · exact h.side.wmd w hwm o' (by rw [hops]; simp at ho' ⊢; exact Or.inr ho')
-    · exact h.side.wmd a (List.mem_of_getElem? hp) o' ho'
+    · exact h.side.wmd hv hh w hwm o' (by rw [hops]; simp at ho' ⊢; exact Or.inr ho')
+    · exact h.side.wmd hv hh a (List.mem_of_getElem? hp) o' ho'
 
 /-- a chunk writer's operation raises -/
 theorem inv_wrk_fail {cs : List Chunk} {v : Variant} {c : Cfg} {k : Nat} {w : Worker} (h : Inv cs v c)
@@ -1759,11 +1771,11 @@ theorem inv_wrk_fail {cs : List Chunk} {v : Variant} {c : Cfg} {k : Nat} {w : Wo
         (awaited_congr (c2 := { c with workers := c.workers.set k { w with ops := [], st := .failed } }) rfl rfl this.awaited),
       this.reads, this.names, this.mdOpen, this.sj, this.noApp, this.noRead, this.nocmeta, this.unl, this.collectOnce,
       this.lateItems⟩
-  · refine ⟨h.side.nf, ?_, h.side.orphOk, h.side.orphMode⟩
-    intro a ham o' ho'
+  · refine ⟨?_, h.side.nmu, h.side.orphOk, h.side.orphMode⟩
+    intro hv hh a ham o' ho'
     rcases mem_set_cases ham with rfl | ⟨p, _, hp⟩
     · simp at ho'
-    · exact h.side.wmd a (List.mem_of_getElem? hp) o' ho'
+    · exact h.side.wmd hv hh a (List.mem_of_getElem? hp) o' ho'
 
 /-! ## registration of the newest write; writes nobody waits for -/
 
@@ -1773,7 +1785,8 @@ theorem main_unreg {cs : List Chunk} {v : Variant} {c : Cfg} (m : Main cs v c) (
     m.sj, m.noApp, m.noRead, m.nocmeta, m.unl, m.collectOnce, m.lateItems⟩
 
 /-- whether the newest chunk write has reached `pending` is of no concern to the invariant -/
-theorem inv_unreg {cs : List Chunk} {v : Variant} {c : Cfg} (h : Inv cs v c) (b : Bool) : Inv cs v { c with unreg := b } := by
+theorem inv_unreg {cs : List Chunk} {v : Variant} {c : Cfg} (h : Inv cs v c) (b : Bool)
+    (hb : b = true → v = .forked → c.handling = true) : Inv cs v { c with unreg := b } := by
   constructor
   · exact h.shape
   · exact h.wtemp
@@ -1790,7 +1803,11 @@ theorem inv_unreg {cs : List Chunk} {v : Variant} {c : Cfg} (h : Inv cs v c) (b 
   · exact h.tempSome
   · exact h.termLate
   · exact h.renamed
-  · exact h.side.congr rfl rfl rfl rfl
+  · refine ⟨h.side.wmd, ?_, h.side.orphOk, h.side.orphMode⟩
+    intro hv hh
+    cases b with
+    | false => rfl
+    | true => have := hb rfl hv; simp only at hh; rw [hh] at this; cases this
 
 /-- a chunk write nobody waits for performs its next operation, or fails: it only touches data entries of the temp
 directory, and the saver is inside the handler (or through) -/
@@ -1807,7 +1824,7 @@ theorem inv_orph {cs : List Chunk} {v : Variant} {c c' : Cfg} {k : Nat} {inject 
       have hside : ∀ (w' : Worker) (hsub : ∀ o' ∈ w'.ops, o' ∈ w.ops) (fs' : FS),
           Side v { c with fs := fs', orphans := c.orphans.set k w' } := by
         intro w' hsub fs'
-        refine ⟨h.side.nf, h.side.wmd, ?_, fun _ => hhand⟩
+        refine ⟨h.side.wmd, h.side.nmu, ?_, fun _ => hhand⟩
         intro a ham o' ho'
         rcases mem_set_cases ham with rfl | ⟨p, _, hp⟩
         · exact h.side.orphOk w hwm o' (hsub o' ho')
